@@ -46,11 +46,11 @@ def kernel_level(res, rng, n_cases):
                           {"cfg": cfg, "low_memory": low})
 
 
-def api_init_graph(res, rng, metric, kind):
+def api_init_graph(res, rng, metric, kind, wide=False):
     n = int(rng.choice([12, 60, 150])); k = int(rng.choice([3, 6, 10])); dim = 4
     X, L = api.gen_dataset(rng, metric, kind, n, dim)
     kw = api.metric_kwds(metric, rng, dim)
-    wd = k + int(rng.choice([0, 0, 4]))                 # callers may supply more candidate columns than n_neighbors, in any order
+    wd = k + (4 if wide else int(rng.choice([0, 0, 4])))                 # callers may supply more candidate columns than n_neighbors, in any order
     G = rng.integers(0, n, size=(n, wd)).astype(np.int32); G[rng.random((n, wd)) < 0.35] = -1
     with_dist = bool(rng.integers(2)) and not kind.startswith("csr")
     ref = np.full((n, wd), INF)
@@ -64,7 +64,7 @@ def api_init_graph(res, rng, metric, kind):
         extra["init_dist"] = np.where(np.isinf(ref), 0.0, ref).astype(np.float32)
     case = {"metric": metric, "kind": kind, "n": n, "k": k, "width": wd, "with_dist": with_dist, "kwds": kw}
     idx = NNDescent(X, metric=metric, metric_kwds=kw, n_neighbors=k, random_state=int(rng.integers(10 ** 6)),
-                    n_iters=int(rng.choice([0, 1, 5])), **extra)
+                    n_iters=0 if wide else int(rng.choice([0, 1, 5])), **extra)
     inds, dists = idx.neighbor_graph
     res.case(("init", metric, kind, n, k, with_dist, G.tobytes(), np.asarray(L).tobytes()), True,
              sample={**case, "init_row0": G[0].tolist(), "result_row0": inds[0].tolist()})
@@ -152,7 +152,7 @@ def run(res, tier, seed, search):
     pick = [combos[(seed + i) % len(combos)] for i in range(2 if tier == "quick" else len(combos))]
     for metric, kind in pick:
         for r in range(reps):
-            api_init_graph(res, rng, metric, kind)
+            api_init_graph(res, rng, metric, kind, wide=(r == 0))
             api_iters_case(res, rng, metric, kind)
     for metric in (["euclidean", "cosine"] if tier == "quick" else ["euclidean", "cosine", "manhattan", "correlation"]):
         for r in range(reps):
